@@ -20,6 +20,10 @@ theorem single_family_files_are_module_configs : singleFamilyOk = true := by dec
 /-- every transaction message is registered and declares an existing address signer -/
 theorem msgs_registered_and_signed : allMsgsOk = true := by decide
 
+/-- every service's `grpc.ServiceDesc` — the table a server registered through that family
+actually serves from — lists exactly the methods of the descriptor, in both families -/
+theorem grpc_service_tables_agree : grpcDescsOk = true := by decide
+
 /-- full statement: no message-typed field is declared with a scalar custom type (which makes
     the two families write different bytes for the same descriptor) -/
 def NoScalarCustomTypeOnMessageField : Prop := suspectFields = []
